@@ -115,6 +115,55 @@ Example C18_plist_example : pl_run (pl_init 0) [PLPush [97;97]; PLUnshift [98]; 
   = list_run nil [PLPush [97;97]; PLUnshift [98]; PLClone; PLShift]%Z.
 Proof. vm_compute. reflexivity. Qed.
 
+(* iwlist_shift across its compaction threshold, in every state an API user can reach (any initial allocation, any call
+   sequence): the head element is handed out (it is read BEFORE the array is compacted), the remaining items are the
+   tail, the allocation is unchanged, and the array is compacted (start = 0) exactly when the new start offset is a
+   multiple of 256 and exceeds half the remaining count - otherwise the start offset advances by one. *)
+Theorem C18_plist_shift_compaction : forall (an : nat) (ops : list plop) (x : list Z) (t : list (list Z)),
+  list_exec nil ops = x :: t ->
+  let l := pl_exec (pl_init an) ops in
+  snd (pl_shift l) = (PL_OK, Some x) /\
+  pl_items (fst (pl_shift l)) = t /\
+  pl_anum (fst (pl_shift l)) = pl_anum l /\
+  pl_start (fst (pl_shift l)) =
+    (if Nat.eqb ((pl_start l + 1) mod 256) 0 && ((pl_num l - 1) / 2 <? pl_start l + 1) then 0 else pl_start l + 1).
+Proof. exact shift_compaction_reachable. Qed.
+Print Assumptions C18_plist_shift_compaction.
+
+(* 512 pushes and 255 shifts: the next shift is the one that compacts, with 256 items left *)
+Example C18_plist_shift_compaction_example :
+  let ops := map (fun i => PLPush [Z.of_nat i]) (seq 0 512) ++ repeat PLShift 255 in
+  let l := pl_exec (pl_init 0) ops in
+  hd nil (list_exec nil ops) = [255%Z] /\ pl_start l = 255 /\ pl_num l = 257 /\
+  pl_start (fst (pl_shift l)) = 0 /\ pl_num (fst (pl_shift l)) = 256 /\ snd (pl_shift l) = (PL_OK, Some [255%Z]).
+Proof. vm_compute. repeat split; reflexivity. Qed.
+
+(* The order "read the element, then compact" is essential.  [pl_shift_late] is the variant that reads array[index] after
+   the compaction (NOT the code; the change seeded in round 2): it answers like the code in every reachable state
+   outside the window "the shift compacts while more than `start` items remain" ... *)
+Theorem C18_plist_shift_late_window : forall (an : nat) (ops : list plop),
+  let l := pl_exec (pl_init an) ops in
+  (Nat.eqb ((pl_start l + 1) mod 256) 0 && ((pl_num l - 1) / 2 <? pl_start l + 1) = false \/ pl_num l - 1 <= pl_start l) ->
+  pl_shift_late l = pl_shift l.
+Proof. exact shift_late_window_reachable. Qed.
+Print Assumptions C18_plist_shift_late_window.
+
+(* the window is not hit by 512 pushes and 254 shifts (no compaction yet) *)
+Example C18_plist_shift_late_window_example :
+  let l := pl_exec (pl_init 0) (map (fun i => PLPush [Z.of_nat i]) (seq 0 512) ++ repeat PLShift 254) in
+  Nat.eqb ((pl_start l + 1) mod 256) 0 && ((pl_num l - 1) / 2 <? pl_start l + 1) = false /\ pl_shift_late l = pl_shift l.
+Proof. vm_compute. split; reflexivity. Qed.
+
+(* ... and inside the window it hands out the element `start` positions further down (refutation of the variant by a
+   reachable state: 512 pushes, 255 shifts, then the 256th shift; replayed on the real code by
+   corpus/C18/iwlist-shift-compact-512.txt) *)
+Theorem C18_plist_shift_late_refuted :
+  pl_wf late_witness /\ pl_compacts late_witness = true /\ pl_start late_witness = 255 /\ pl_num late_witness = 257 /\
+  snd (pl_shift late_witness) = (PL_OK, Some [255%Z]) /\
+  snd (pl_shift_late late_witness) = (PL_OK, Some [511%Z]).
+Proof. exact shift_late_refuted. Qed.
+Print Assumptions C18_plist_shift_late_refuted.
+
 (* ================================================================ sorted-array helpers (binary search) *)
 Theorem C18_sorted_find2_correct : forall (A : Type) (cmp : A -> A -> Z) (dflt : A) (key : A -> Z),
   (forall a b : A, (cmp a b =? 0)%Z = (key a =? key b)%Z /\ (cmp a b <? 0)%Z = (key a <? key b)%Z) ->
